@@ -113,7 +113,20 @@ Fixpoint run_obs (s : ust host bstr) (prev : list N) (ops : list sexp) : ust hos
   end.
 
 Definition run_case (c : sexp) : sexp :=
-  if head_is c "seq" then
+  if head_is c "fullpath" then
+    (* (fullpath #root #p): fServer.fullPath of NewServer(root) *)
+    match fs_fullpath (path_clean (get_bytes (arg c 0))) (get_bytes (arg c 1)) with
+    | Some hp => SList [ssym "ok"; SBytes hp]
+    | None => SList [ssym "err"]
+    end
+  else if head_is c "reffull" then
+    SBytes (ref_fullpath (path_clean (get_bytes (arg c 0))) (get_bytes (arg c 1)))
+  else if head_is c "dir" then SBytes (path_dir (get_bytes (arg c 0)))
+  else if head_is c "oflags" then
+    (* (oflags MODE): util.go oflags as (access truncate create), access 0 = O_RDONLY, 1 = O_WRONLY, 2 = O_RDWR *)
+    let f := ufs_oflags (get_N (arg c 0)) in
+    SList [snat (match of_acc f with RDONLY => 0 | WRONLY => 1 | RDWR => 2 end)%N; sbool (of_trunc f); sbool (of_creat f)]
+  else if head_is c "seq" then
     let h0 := sandbox (get_N (arg c 0)) in
     let ops := skipn 2 (get_list c) in
     let '(s, l) := run_obs (init h0) [] ops in
